@@ -44,9 +44,9 @@ CHECKS = {
     "C15": dict(
         text=("Theorems: the atomic sets are a partition of the feature names (permutation of the name list, no empty set), members "
               "of one set have equal selection value in every configuration obeying the tree rules, mandatory children are in the "
-              "parent's set. Tie to the code: suite O-atomic with a brute-force oracle."),
+              "parent's set. Tie to the code: suite O-atomic with a brute-force oracle. Source tie (DESIGN §10): get_atomic_sets / compute_atomic_sets are re-translated from fm_atomic_sets.py on every run with a store of the shared, mutated set objects (Gen/Src_atomic.v); C15_source_is_model proves that the translated source returns the model's sets, in order, for every model with distinct feature names, and C15_source_partition / _coselected restate the property about it."),
         note="Coq kernel; extraction/driver; harness; the structural formulation of the recursive set construction is validated by correspondence; no axioms",
-        technique="Coq proof over hand-written Gallina model + differential correspondence",
+        technique="Coq proof over hand-written Gallina model + differential correspondence + source re-translated into Gallina on every run (tools/py2coq.py) and proved equal to the model",
         design="4 C15"),
     "C16": dict(
         text=("Theorems: leaves/leaf count = features without relations, max depth = longest root-to-leaf path, ancestors table = "
